@@ -406,6 +406,18 @@ func (vc *FuncVC) applyContract(st *State, con *Contract, name string, fn *ssa.F
 			vc.havocItem(st, preEnv, m, name)
 		}
 	}
+	if con.ModArgs {
+		for _, a := range args {
+			switch a.K {
+			case KLoc:
+				if _, isSlice := a.Loc.Typ.Underlying().(*types.Slice); isSlice {
+					st.storeSliceTo(a.Loc.Heap, a.Loc.Idx, st.freshVal(a.Loc.Typ, "modarg"))
+				} else {
+					vc.havocLoc(st, a.Loc)
+				}
+			}
+		}
+	}
 	res := st.freshVal(resT, "res."+shortTail(name))
 	vc.bindResults(vars, con, fn, sig, res)
 	post := &SpecEnv{g: st.g, st: st, heaps: st.heaps, old: pre, vars: vars, pkg: pkg}
